@@ -1,7 +1,7 @@
 (* C15 — proofs: address-level consequences for the pool; MallocAllocator / AlignedAllocator guards;
    DebugAllocator page layout and deallocate lookup (with the refutations for the tree as found). *)
 From Coq Require Import List NArith Bool Arith Lia Permutation.
-From DuneV Require Import C15_Model C15_Spec C15_Proofs.
+From DuneV Require Import Params_gen C15_Model C15_Spec C15_Proofs.
 Import ListNotations.
 Local Open Scope N_scope.
 
@@ -168,9 +168,9 @@ Theorem c15_debug_layout page ty sT n mm : 1 <= page -> 2 * page <= c15_size_max
           gp + page = pp + pages * page)).                   (* the guard page is the last page of the mapping *)
 Proof.
   intros Hp H2p HsT. split.
-  - unfold c15_dbg_allocate, c15_dbg_allocate_gen, c15_dbg_limit. cbn [andb].
+  - unfold c15_dbg_allocate, c15_dbg_allocate_gen, c15_dbg_limit, c15_param_dbg_has_guard, c15_param_dbg_guard_pages, c15_param_dbg_extra_pages. cbn [andb].
     intros Hn. apply N.ltb_lt in Hn. rewrite Hn. reflexivity.
-  - intros Hn cap pages. unfold c15_dbg_allocate, c15_dbg_allocate_gen, c15_dbg_limit in *. cbn [andb].
+  - intros Hn cap pages. unfold c15_dbg_allocate, c15_dbg_allocate_gen, c15_dbg_limit, c15_param_dbg_has_guard, c15_param_dbg_guard_pages, c15_param_dbg_extra_pages in *. cbn [andb].
     assert (E : (c15_size_max - 2 * page) / sT <? n = false) by (apply N.ltb_ge; exact Hn). rewrite E.
     assert (Hcap : cap <= c15_size_max - 2 * page).
     { unfold cap. etransitivity; [apply N.mul_le_mono_r; exact Hn|]. rewrite N.mul_comm. apply N.mul_div_le. lia. }
@@ -218,7 +218,7 @@ Lemma c15_dbg_page_of_ok page it : 1 <= page -> c15_dbg_wf page it ->
 Proof.
   intros Hp ([m Hm] & Hptr). assert (Hpne : page <> 0) by lia.
   pose proof (N.mod_upper_bound (d_capacity it) page Hpne) as Hub.
-  unfold c15_dbg_page_of_gen. cbn [andb]. rewrite Hptr, Hm.
+  unfold c15_dbg_page_of_gen, c15_param_dbg_page_boundary_case. cbn [andb]. rewrite Hptr, Hm.
   set (r := d_capacity it mod page) in *.
   replace (m * page + page - r) with ((page - r) + m * page) by lia.
   rewrite N.mod_add by assumption.
